@@ -41,12 +41,12 @@ FullNodes ==
     WithBogus(NC("Mul", "factor", 4)), WithBogus(N0("Sq")), WithBogus(NK("Rename", "a", "b")),
     N0("PSrc"), N0("PSrcInj"), N0("PSink"), N0("Touch"), NK("ProbeP", "a", ""),
     NC("CtxWP", "factor", 4), NS("SweepCtxW", <<2, 3>>), N0("SliceCtxW"),
-    NC("Mul", "factor", NullCfg), NC("MulDef", "factor", NullCfg),           \* parameter configured as null     \* context-writing element: plain, swept, sliced
+    NC("Mul", "factor", NullCfg), NC("MulDef", "factor", NullCfg), N0("IncIP"),           \* parameter configured as null     \* context-writing element: plain, swept, sliced
     Node("ProbeP", [x \in {"factor"} |-> 4], "factor", "", <<>>) }
 
 \* focus sets: fewer instances, longer programs
 FeedNodes ==   \* parameter feeding
-  { NC("Src", "value", 6), N0("MulDef"), N0("Mul"), N0("Add"), NK("Probe", "factor", ""),
+  { NC("Src", "value", 6), N0("MulDef"), N0("Mul"), N0("Add"), NK("Probe", "factor", ""), N0("IncIP"),
     NK("Rename", "factor", "addend"), NK("Delete", "factor", ""), N0("Sq") }
 SliceNodes ==  \* slicers and sweeps
   { NS("SweepSrc", <<1, 2>>), N0("SliceMulDef"), N0("SliceMul"), NK("SliceProbe", "factor", ""),
